@@ -2,6 +2,9 @@
    Text-level model: Model/Render.v.  Token level: Proofs/RenderTok.v.  Imports: Proofs/RenderImports.v.
    Finding classes and their refutations: Check/RenderCases.v, Refuted/C11.v. *)
 From MT Require Import Types Render RenderTok RenderImports RenderCases.
+From MT Require Import Types TypesFacts Render RenderTok RenderImports RenderCases.
+From MT Require Import RenderTextStr RenderTextPx RenderText RenderTextCor RenderTextTd.
+From MT Require RenderTextEx RenderTextTdEx.
 
 Open Scope string_scope.
 Open Scope nat_scope.
@@ -153,3 +156,58 @@ Example ex_c11_full_instance :
        +++ "    A," +++ nl +++ "    Outer," +++ nl +++ ")" +++ nl +++ nl +++ nl
        +++ "def f1(a: Dict[A, B], b: Optional[Outer.Inner] = ...) -> StringIO: ...".
 Proof. vm_compute. repeat split; reflexivity. Qed.
+
+(* ================= text level (Proofs/RenderText*.v) ================= *)
+(* ---- text level: the tokenizer and parser invert the printer (no module to strip) ---- *)
+Theorem render_parse_back :
+  forall ct t, ok t = true -> fwd_ok t = true -> ct_lexical_ok ct = true ->
+    forallb (fun c => cls_in ct c && is_builtin ct c) (tcls t) = true ->
+    parse_anno (ra ct t) = Some (rast ct t).
+Proof. exact parse_back_checked. Qed.
+Print Assumptions render_parse_back.
+
+(* ---- stringology: stripping the text = printing from the class table with stripped class texts ---- *)
+Theorem strip_is_tokenwise :
+  forall ct mods t, mods_ok mods = true -> lexok (cls_both_ok ct mods) t = true ->
+    strip_mods mods (ra ct t) = ra (strip_ct mods ct) t
+    /\ parse_anno (strip_mods mods (ra ct t)) = Some (rast (strip_ct mods ct) t).
+Proof. exact strip_tokenwise. Qed.
+Print Assumptions strip_is_tokenwise.
+
+(* ---- render_resolves_partial without its premise ---- *)
+Theorem render_resolves_text :
+  forall ct ns mods t, binds_base ns -> binds_cls_l ct ns (tcls t) -> ok t = true ->
+    text_ok ct mods t = true ->
+    eval_text ct ns (strip_mods mods (ra ct t)) = Some (evt t).
+Proof. exact resolves_text_checked. Qed.
+Print Assumptions render_resolves_text.
+
+Theorem tokenwise_from_text_ok :
+  forall ct mods t, ok t = true -> text_ok ct mods t = true -> tokenwise ct mods t = true.
+Proof. exact tokenwise_true. Qed.
+Print Assumptions tokenwise_from_text_ok.
+
+(* syntactic sufficient condition for the strip_exact conjunct of text_ok *)
+Theorem strip_exact_syntactic :
+  forall ct mods c, cls_lex ct c = true -> strip_syn_ok ct mods c = true -> strip_exact ct mods c = true.
+Proof. exact strip_syn_exact. Qed.
+Print Assumptions strip_exact_syntactic.
+
+(* the harness's well-formedness of class names gives the `dotted` conjunct of ct_lexical_ok *)
+Theorem wf_class_names_dotted :
+  forall w, forallb is_identifier (split_dot w) = true -> dotted w = true.
+Proof. exact wf_names_dotted. Qed.
+Print Assumptions wf_class_names_dotted.
+
+(* ---- td_stub_resolves, flat TypedDicts ---- *)
+Theorem td_stub_resolves_flat_partial :
+  forall ct ns hint req opt fuel, binds_base ns ->
+    wf_ty (TTypedDict req opt) -> Forall (fld_good ct ns) (req ++ opt) -> req ++ opt <> [] ->
+    let '(t', cs) := rtd (TTypedDict req opt) hint in
+    nodup_s (map cs_name cs) = true ->
+    (forall s, In s cs -> lookup_s (cs_name s) ns = lookup_s (cs_name s) (cstubs_ns ct cs)) ->
+    lookup_s "TypedDict" ns = Some NsTDBase ->
+    List.length cs < fuel ->
+    exists r, resolve ct ns fuel t' = Some r /\ corrb (TTypedDict req opt) r = true.
+Proof. exact td_stub_resolves_flat_b. Qed.
+Print Assumptions td_stub_resolves_flat_partial.
